@@ -14,6 +14,7 @@ import (
 	"path/filepath"
 	"runtime"
 	"runtime/debug"
+	"sort"
 	"strconv"
 	"strings"
 	"sync"
@@ -56,6 +57,18 @@ type Ctx struct {
 	faults    map[string]int
 	state     string
 	ops       int
+	tags      map[string]bool
+}
+
+// AddTag records a fact about the run's history that the known-findings file
+// can match on; tags are appended to the violation text.
+func (c *Ctx) AddTag(tag string) {
+	c.mu.Lock()
+	if c.tags == nil {
+		c.tags = map[string]bool{}
+	}
+	c.tags[tag] = true
+	c.mu.Unlock()
 }
 
 // Violate records the first violation of the run. class is the diagnosis
@@ -73,11 +86,11 @@ func (c *Ctx) Violate(class, format string, a ...any) {
 
 func (c *Ctx) Violated() bool { c.mu.Lock(); defer c.mu.Unlock(); return c.violation != "" }
 
-func (c *Ctx) Probe(name string)          { c.mu.Lock(); c.probes[name]++; c.mu.Unlock() }
-func (c *Ctx) ProbeN(name string, n int)  { c.mu.Lock(); c.probes[name] += n; c.mu.Unlock() }
-func (c *Ctx) Fault(name string)          { c.mu.Lock(); c.faults[name]++; c.mu.Unlock() }
-func (c *Ctx) SetState(s string)          { c.mu.Lock(); c.state = s; c.mu.Unlock() }
-func (c *Ctx) OpDone()                    { c.mu.Lock(); c.ops++; c.mu.Unlock() }
+func (c *Ctx) Probe(name string)           { c.mu.Lock(); c.probes[name]++; c.mu.Unlock() }
+func (c *Ctx) ProbeN(name string, n int)   { c.mu.Lock(); c.probes[name] += n; c.mu.Unlock() }
+func (c *Ctx) Fault(name string)           { c.mu.Lock(); c.faults[name]++; c.mu.Unlock() }
+func (c *Ctx) SetState(s string)           { c.mu.Lock(); c.state = s; c.mu.Unlock() }
+func (c *Ctx) OpDone()                     { c.mu.Lock(); c.ops++; c.mu.Unlock() }
 func (c *Ctx) Cfg(k string, d int64) int64 { return c.Case.Get(k, d) }
 
 // Go starts a harness task. A panic inside it (repository code panicking on the
@@ -167,6 +180,14 @@ func Exec(t *testing.T, h *Harness, prop string, cs simcore.Case, seed uint64, r
 		res.Run = CurrentRun
 		c.mu.Lock()
 		res.Violation, res.Class = c.violation, c.class
+		if res.Violation != "" && len(c.tags) > 0 {
+			var ts []string
+			for t := range c.tags {
+				ts = append(ts, t)
+			}
+			sort.Strings(ts)
+			res.Violation += " [history: " + strings.Join(ts, "; ") + "]"
+		}
 		res.Probes, res.Faults, res.State, res.Ops = c.probes, c.faults, c.state, c.ops
 		c.mu.Unlock()
 		if p := s.Panicked(); p != "" && res.Violation == "" {
